@@ -253,6 +253,7 @@ func (c *converter) extFacts(n ast.Node) (int, string) {
 	}
 	set(6, typep.IsSlice(typ))
 	set(7, typep.IsTypeExpr(info, e))
+	set(12, info.Types[e].IsNil())
 	if ta, ok := e.(*ast.TypeAssertExpr); ok && ta.Type != nil {
 		from := info.TypeOf(ta.X)
 		if from == nil {
